@@ -101,6 +101,7 @@ def contracts_for_schema(cs, tier):
         has_product = any("*" in e for _, e in post)
         out.append(Contract(f, nm, props={"C02", "C03", "C10", "C11"}, ghosts=GH_N, mode="S", pre=pre + extra_pre, post=post, assigns=[], unwind=unwind, kind=kind,
                             backends=["kissat", "z3", "cvc5", "minisat"] if has_product else None,
+                            optional=sum(1 for _, m_ in wm if m_["mkind"] in ("group", "data")) >= 4,
                             note="random-access getters of level %s (%s)" % (li.ident, li.kind)))
         if li.ident in getattr(g, "bytag_roots", []):
             fb = u.root("r_%s_get_bytag" % li.ident)
